@@ -106,13 +106,20 @@ Proof.
   simpl. now rewrite IH, append_task_names.
 Qed.
 
-Lemma finish_in_names qs qn ok stp unl : names (fst (finish_in qs qn ok stp unl)) = names qs.
+Lemma finish_in_names qs qn ok stp wait unl : names (fst (finish_in qs qn ok stp wait unl)) = names qs.
 Proof.
   induction qs as [|q r IH]; [reflexivity|]. simpl.
   destruct (N.eqb (q_name q) qn).
   - destruct (q_running q) as [sy|]; [|reflexivity]. destruct (q_items q); [reflexivity|].
-    destruct stp; [reflexivity|]. destruct (ok || t_allow t); reflexivity.
-  - destruct (finish_in r qn ok stp unl) as [r' u'] eqn:E. simpl. f_equal. exact IH.
+    destruct (q_delay q); [reflexivity|].
+    destruct stp; [reflexivity|]. destruct (ok || t_allow t); [reflexivity|]. destruct wait; reflexivity.
+  - destruct (finish_in r qn ok stp wait unl) as [r' u'] eqn:E. simpl. f_equal. exact IH.
+Qed.
+
+Lemma elapse_in_names qs qn : names (elapse_in qs qn) = names qs.
+Proof.
+  induction qs as [|q r IH]; [reflexivity|]. simpl.
+  destruct (N.eqb (q_name q) qn); simpl; [destruct (q_delay q); reflexivity | now rewrite IH].
 Qed.
 
 Lemma advance_all_names cfg qok qs sh : names (fst (advance_all cfg qok qs sh)) = names qs.
@@ -128,11 +135,14 @@ Qed.
 
 Definition busy_nonempty (q : qstate) : Prop := is_running q = true -> q_items q <> [].
 Definition quiescent_q (q : qstate) : Prop := is_running q = true \/ q_items q = [].
+(* a back-off delay is a way of being blocked on the head task *)
+Definition delay_running (q : qstate) : Prop := q_delay q = true -> is_running q = true.
 
 Record Inv (s : state) : Prop := mkInv {
   inv_names : NoDup (names (queues s));
   inv_busy : Forall busy_nonempty (queues s);
-  inv_quiet : stopped s = false -> Forall quiescent_q (queues s)
+  inv_quiet : stopped s = false -> Forall quiescent_q (queues s);
+  inv_delay : Forall delay_running (queues s)
 }.
 
 Lemma advance_all_post cfg qok qs sh :
@@ -167,18 +177,79 @@ Proof.
   simpl. apply IH, append_task_busy, H.
 Qed.
 
-Lemma finish_in_busy qs qn ok stp unl :
-  Forall busy_nonempty qs -> Forall busy_nonempty (fst (finish_in qs qn ok stp unl)).
+Lemma finish_in_busy qs qn ok stp wait unl :
+  Forall busy_nonempty qs -> Forall busy_nonempty (fst (finish_in qs qn ok stp wait unl)).
 Proof.
   induction qs as [|q r IH]; intros H; [constructor|]. inversion H as [|? ? Hq Hr]; subst. simpl.
   destruct (N.eqb (q_name q) qn).
   - destruct (q_running q) as [sy|] eqn:R.
     + destruct (q_items q) as [|t rest] eqn:I; [simpl; exact H|].
-      destruct stp; [|destruct (ok || t_allow t)]; simpl; constructor; auto;
+      destruct (q_delay q); [simpl; exact H|].
+      destruct stp; [|destruct (ok || t_allow t); [|destruct wait]]; simpl; constructor; auto;
         unfold busy_nonempty, is_running; simpl; discriminate.
     + simpl. exact H.
-  - specialize (IH Hr). destruct (finish_in r qn ok stp unl) as [r' u'] eqn:E. simpl in *.
+  - specialize (IH Hr). destruct (finish_in r qn ok stp wait unl) as [r' u'] eqn:E. simpl in *.
     constructor; [exact Hq | exact IH].
+Qed.
+
+Lemma elapse_in_busy qs qn : Forall busy_nonempty qs -> Forall busy_nonempty (elapse_in qs qn).
+Proof.
+  induction qs as [|q r IH]; intros H; [constructor|]. inversion H as [|? ? Hq Hr]; subst. simpl.
+  destruct (N.eqb (q_name q) qn); [|constructor; auto].
+  constructor; [|exact Hr]. destruct (q_delay q); [|exact Hq]. unfold busy_nonempty, is_running. simpl. discriminate.
+Qed.
+
+(* ---- delay_running is kept by every operation ---- *)
+Lemma append_task_delay qs t : Forall delay_running qs -> Forall delay_running (append_task qs t).
+Proof.
+  induction qs as [|q r IH]; intros H; [constructor|]. inversion H; subst. simpl.
+  destruct (N.eqb (q_name q) (t_queue t)); constructor; auto.
+Qed.
+Lemma append_tasks_delay qs ts : Forall delay_running qs -> Forall delay_running (append_tasks qs ts).
+Proof.
+  unfold append_tasks. revert qs. induction ts as [|t ts IH]; intros qs H; [exact H|].
+  simpl. apply IH, append_task_delay, H.
+Qed.
+Lemma finish_in_delay qs qn ok stp wait unl :
+  Forall delay_running qs -> Forall delay_running (fst (finish_in qs qn ok stp wait unl)).
+Proof.
+  induction qs as [|q r IH]; intros H; [constructor|]. inversion H as [|? ? Hq Hr]; subst. simpl.
+  destruct (N.eqb (q_name q) qn).
+  - destruct (q_running q) as [sy|] eqn:R; [|simpl; exact H].
+    destruct (q_items q) as [|t rest] eqn:I; [simpl; exact H|].
+    destruct (q_delay q); [simpl; exact H|].
+    destruct stp; [|destruct (ok || t_allow t); [|destruct wait]]; simpl; constructor; auto;
+      unfold delay_running, is_running; simpl; auto; discriminate.
+  - specialize (IH Hr). destruct (finish_in r qn ok stp wait unl) as [r' u'] eqn:E. simpl in *.
+    constructor; [exact Hq | exact IH].
+Qed.
+Lemma elapse_in_delay qs qn : Forall delay_running qs -> Forall delay_running (elapse_in qs qn).
+Proof.
+  induction qs as [|q r IH]; intros H; [constructor|]. inversion H as [|? ? Hq Hr]; subst. simpl.
+  destruct (N.eqb (q_name q) qn); [|constructor; auto].
+  constructor; [|exact Hr]. destruct (q_delay q); [|exact Hq]. unfold delay_running. simpl. discriminate.
+Qed.
+Lemma advance_all_delay cfg qok qs sh :
+  Forall delay_running qs -> Forall delay_running (fst (advance_all cfg qok qs sh)).
+Proof.
+  revert sh. induction qs as [|q r IH]; intros sh H; [constructor|]. inversion H as [|? ? Hq Hr]; subst. simpl.
+  destruct (is_running q) eqn:R.
+  - specialize (IH sh Hr). destruct (advance_all cfg qok r sh) as [r' sh']. simpl in *. constructor; auto.
+  - destruct (advance_q (fuel_for cfg (q_items q)) cfg qok (q_items q) sh) as [[items run] sh1].
+    specialize (IH sh1 Hr). destruct (advance_all cfg qok r sh1) as [r' sh']. simpl in *. constructor; auto.
+    unfold delay_running. simpl. discriminate.
+Qed.
+Lemma add_queue_delay qs n : Forall delay_running qs -> Forall delay_running (add_queue qs n).
+Proof.
+  intros H. unfold add_queue. destruct (has_queue qs n); [exact H|].
+  apply Forall_app. split; [exact H|]. constructor; [|constructor]. unfold delay_running. simpl. discriminate.
+Qed.
+Lemma fold_add_queue_delay l : forall qs, Forall delay_running qs -> Forall delay_running (fold_left add_queue l qs).
+Proof. induction l as [|n l IH]; intros qs H; [exact H|]. simpl. apply IH, add_queue_delay, H. Qed.
+Lemma boot_queues_delay cfg : Forall delay_running (boot_queues cfg).
+Proof.
+  unfold boot_queues. apply fold_add_queue_delay, fold_add_queue_delay.
+  constructor; [|constructor]. unfold delay_running. simpl. discriminate.
 Qed.
 
 
@@ -231,33 +302,50 @@ Proof.
 Qed.
 
 Lemma advance_inv cfg s :
-  NoDup (names (queues s)) -> Forall busy_nonempty (queues s) -> Inv (advance cfg s).
+  NoDup (names (queues s)) -> Forall busy_nonempty (queues s) -> Forall delay_running (queues s) -> Inv (advance cfg s).
 Proof.
-  intros H1 H2. unfold advance. destruct (stopped s) eqn:St.
+  intros H1 H2 H4. unfold advance. destruct (stopped s) eqn:St.
   - constructor; auto. intros E; congruence.
   - destruct (advance_all_post cfg (has_queue (queues s)) (queues s)
                 (mkSh (sched_on s) (unlocked s) (mon_started s)) H2) as [P1 P2].
     pose proof (advance_all_names cfg (has_queue (queues s)) (queues s)
                   (mkSh (sched_on s) (unlocked s) (mon_started s))) as P3.
+    pose proof (advance_all_delay cfg (has_queue (queues s)) (queues s)
+                  (mkSh (sched_on s) (unlocked s) (mon_started s)) H4) as P4.
     destruct (advance_all cfg (has_queue (queues s)) (queues s) _) as [qs sh]. simpl in *.
     constructor; simpl; auto. now rewrite P3.
 Qed.
 
 Lemma step_inv cfg s a : Inv s -> Inv (step cfg s a).
 Proof.
-  intros [I1 I2 I3]. unfold step. apply advance_inv; destruct a; simpl.
+  intros [I1 I2 I3 I4]. unfold step. apply advance_inv; destruct a; simpl.
   - destruct (queues s) eqn:E; simpl; [apply (boot_queues_inv cfg) | rewrite E; exact I1].
   - now rewrite append_tasks_names.
   - now rewrite append_tasks_names.
-  - pose proof (finish_in_names (queues s) q ok (stopped s) (unlocked s)) as N1.
-    destruct (finish_in (queues s) q ok (stopped s) (unlocked s)) as [qs unl]. simpl in *. now rewrite N1.
+  - pose proof (finish_in_names (queues s) q ok (stopped s) false (unlocked s)) as N1.
+    destruct (finish_in (queues s) q ok (stopped s) false (unlocked s)) as [qs unl]. simpl in *. now rewrite N1.
   - exact I1.
+  - pose proof (finish_in_names (queues s) q false (stopped s) true (unlocked s)) as N1.
+    destruct (finish_in (queues s) q false (stopped s) true (unlocked s)) as [qs unl]. simpl in *. now rewrite N1.
+  - now rewrite elapse_in_names.
   - destruct (queues s) eqn:E; simpl; [apply (boot_queues_inv cfg) | rewrite E; exact I2].
   - now apply append_tasks_busy.
   - now apply append_tasks_busy.
-  - pose proof (finish_in_busy (queues s) q ok (stopped s) (unlocked s) I2) as N1.
-    destruct (finish_in (queues s) q ok (stopped s) (unlocked s)) as [qs unl]. exact N1.
+  - pose proof (finish_in_busy (queues s) q ok (stopped s) false (unlocked s) I2) as N1.
+    destruct (finish_in (queues s) q ok (stopped s) false (unlocked s)) as [qs unl]. exact N1.
   - exact I2.
+  - pose proof (finish_in_busy (queues s) q false (stopped s) true (unlocked s) I2) as N1.
+    destruct (finish_in (queues s) q false (stopped s) true (unlocked s)) as [qs unl]. exact N1.
+  - now apply elapse_in_busy.
+  - destruct (queues s) eqn:E; simpl; [apply (boot_queues_delay cfg) | rewrite E; exact I4].
+  - now apply append_tasks_delay.
+  - now apply append_tasks_delay.
+  - pose proof (finish_in_delay (queues s) q ok (stopped s) false (unlocked s) I4) as N1.
+    destruct (finish_in (queues s) q ok (stopped s) false (unlocked s)) as [qs unl]. exact N1.
+  - exact I4.
+  - pose proof (finish_in_delay (queues s) q false (stopped s) true (unlocked s) I4) as N1.
+    destruct (finish_in (queues s) q false (stopped s) true (unlocked s)) as [qs unl]. exact N1.
+  - now apply elapse_in_delay.
 Qed.
 
 Lemma init_inv : Inv init.
@@ -285,11 +373,12 @@ Lemma step_stopped cfg s a : stopped (step cfg s a) = stopped s || is_stop a.
 Proof.
   unfold step. rewrite advance_stopped. destruct a; simpl; try now rewrite orb_false_r.
   - destruct (queues s); simpl; now rewrite orb_false_r.
-  - destruct (finish_in _ _ _ _ _); simpl; now rewrite orb_false_r.
+  - destruct (finish_in _ _ _ _ _ _); simpl; now rewrite orb_false_r.
   - now rewrite orb_true_r.
+  - destruct (finish_in _ _ _ _ _ _); simpl; now rewrite orb_false_r.
 Qed.
 
-Definition eta_q (q : qstate) : q = mkQ (q_name q) (q_items q) (q_running q).
+Definition eta_q (q : qstate) : q = mkQ (q_name q) (q_items q) (q_running q) (q_delay q).
 Proof. destruct q; reflexivity. Qed.
 
 Lemma map_id_notin (f : qstate -> qstate) (n : N) (qs : list qstate) :
@@ -300,7 +389,7 @@ Proof.
 Qed.
 
 Definition app_one (t : task) (q : qstate) : qstate :=
-  if N.eqb (q_name q) (t_queue t) then mkQ (q_name q) (q_items q ++ [t]) (q_running q) else q.
+  if N.eqb (q_name q) (t_queue t) then mkQ (q_name q) (q_items q ++ [t]) (q_running q) (q_delay q) else q.
 
 Lemma append_task_map qs t : NoDup (names qs) -> append_task qs t = map (app_one t) qs.
 Proof.
@@ -313,7 +402,7 @@ Proof.
 Qed.
 
 Definition app_many (ts : list task) (q : qstate) : qstate :=
-  mkQ (q_name q) (q_items q ++ filter (fun t => N.eqb (t_queue t) (q_name q)) ts) (q_running q).
+  mkQ (q_name q) (q_items q ++ filter (fun t => N.eqb (t_queue t) (q_name q)) ts) (q_running q) (q_delay q).
 
 Lemma append_tasks_map ts : forall qs, NoDup (names qs) -> append_tasks qs ts = map (app_many ts) qs.
 Proof.
@@ -326,28 +415,53 @@ Proof.
     destruct (N.eqb (q_name q) (t_queue t)); simpl; [now rewrite <- app_assoc | reflexivity].
 Qed.
 
-Definition finish_one (ok stp : bool) (q : qstate) : qstate :=
-  match q_running q, q_items q with
-  | Some _, t :: rest =>
-      if stp then mkQ (q_name q) (q_items q) None
-      else if ok || t_allow t then mkQ (q_name q) rest None
-      else mkQ (q_name q) (incr_fail t :: rest) None
-  | _, _ => q
+Definition finish_one (ok stp wait : bool) (q : qstate) : qstate :=
+  match q_running q, q_items q, q_delay q with
+  | Some _, t :: rest, false =>
+      if stp then mkQ (q_name q) (q_items q) None false
+      else if ok || t_allow t then mkQ (q_name q) rest None false
+      else if wait then mkQ (q_name q) (incr_fail t :: rest) (Some false) true
+      else mkQ (q_name q) (incr_fail t :: rest) None false
+  | _, _, _ => q
   end.
 
-Lemma finish_in_map qs qn ok stp unl : NoDup (names qs) ->
-  fst (finish_in qs qn ok stp unl) = map (fun q => if N.eqb (q_name q) qn then finish_one ok stp q else q) qs.
+Lemma finish_one_name ok stp wait q : q_name (finish_one ok stp wait q) = q_name q.
+Proof.
+  unfold finish_one. destruct (q_running q); [|reflexivity]. destruct (q_items q); [reflexivity|].
+  destruct (q_delay q); [reflexivity|]. destruct stp; [reflexivity|]. destruct (ok || t_allow t); [reflexivity|].
+  destruct wait; reflexivity.
+Qed.
+
+Lemma finish_in_map qs qn ok stp wait unl : NoDup (names qs) ->
+  fst (finish_in qs qn ok stp wait unl) = map (fun q => if N.eqb (q_name q) qn then finish_one ok stp wait q else q) qs.
 Proof.
   induction qs as [|q r IH]; intros H; [reflexivity|]. inversion H as [|? ? Hn Hr]; subst. simpl.
   destruct (N.eqb (q_name q) qn) eqn:E.
   - apply N.eqb_eq in E.
-    assert (Hid : map (fun q0 => if N.eqb (q_name q0) qn then finish_one ok stp q0 else q0) r = r).
+    assert (Hid : map (fun q0 => if N.eqb (q_name q0) qn then finish_one ok stp wait q0 else q0) r = r).
     { apply (map_id_notin _ qn); [|now rewrite <- E].
       intros q0 Hq0. apply N.eqb_neq in Hq0. now rewrite Hq0. }
     rewrite Hid. unfold finish_one.
     destruct (q_running q) as [sy|]; [|reflexivity]. destruct (q_items q) as [|t rest]; [reflexivity|].
-    destruct stp; [reflexivity|]. destruct (ok || t_allow t); reflexivity.
-  - specialize (IH Hr). destruct (finish_in r qn ok stp unl) as [r' u']. simpl in *. now rewrite IH.
+    destruct (q_delay q); [reflexivity|].
+    destruct stp; [reflexivity|]. destruct (ok || t_allow t); [reflexivity|]. destruct wait; reflexivity.
+  - specialize (IH Hr). destruct (finish_in r qn ok stp wait unl) as [r' u']. simpl in *. now rewrite IH.
+Qed.
+
+Definition elapse_one (q : qstate) : qstate :=
+  if q_delay q then mkQ (q_name q) (q_items q) None false else q.
+
+Lemma elapse_one_name q : q_name (elapse_one q) = q_name q.
+Proof. unfold elapse_one. destruct (q_delay q); reflexivity. Qed.
+
+Lemma elapse_in_map qs qn : NoDup (names qs) ->
+  elapse_in qs qn = map (fun q => if N.eqb (q_name q) qn then elapse_one q else q) qs.
+Proof.
+  induction qs as [|q r IH]; intros H; [reflexivity|]. inversion H as [|? ? Hn Hr]; subst. simpl.
+  destruct (N.eqb (q_name q) qn) eqn:E.
+  - apply N.eqb_eq in E. f_equal. symmetry. apply (map_id_notin _ qn); [|now rewrite <- E].
+    intros q0 Hq0. apply N.eqb_neq in Hq0. now rewrite Hq0.
+  - f_equal. now apply IH.
 Qed.
 
 Definition no_shared : shared := mkSh [] [] [].
@@ -355,7 +469,7 @@ Definition no_shared : shared := mkSh [] [] [].
 Definition adv_one (cfg : config) (qok : N -> bool) (q : qstate) : qstate :=
   if is_running q then q
   else let '(items, run, _) := advance_q (fuel_for cfg (q_items q)) cfg qok (q_items q) no_shared in
-       mkQ (q_name q) items run.
+       mkQ (q_name q) items run false.
 
 Lemma advance_all_map cfg qok qs : forall sh, fst (advance_all cfg qok qs sh) = map (adv_one cfg qok) qs.
 Proof.
@@ -377,7 +491,9 @@ Definition step_q (cfg : config) (a : action) (on unl : list N) (stp : bool) (qo
     | Boot | Stop => q
     | Tick c => app_many (sched_tasks cfg on c) q
     | KubeEv m o => app_many (kube_tasks cfg unl m o) q
-    | Finish qn ok => if N.eqb (q_name q) qn then finish_one ok stp q else q
+    | Finish qn ok => if N.eqb (q_name q) qn then finish_one ok stp false q else q
+    | FinishWait qn => if N.eqb (q_name q) qn then finish_one false stp true q else q
+    | Elapse qn => if N.eqb (q_name q) qn then elapse_one q else q
     end in
   if stp || is_stop a then q1 else adv_one cfg qok q1.
 
@@ -433,27 +549,36 @@ Proof.
   - rewrite (step_shape cfg _ (app_many (kube_tasks cfg (unlocked s) mon obj)) (queues s));
       [|simpl; now apply append_tasks_map|reflexivity].
     apply map_ext. intros q1. simpl. now rewrite orb_false_r.
-  - pose proof (finish_in_map (queues s) q ok (stopped s) (unlocked s) Hn) as F.
-    destruct (finish_in (queues s) q ok (stopped s) (unlocked s)) as [qs unl]. simpl in F.
-    rewrite (step_shape cfg _ (fun q0 => if N.eqb (q_name q0) q then finish_one ok (stopped s) q0 else q0) (queues s));
+  - pose proof (finish_in_map (queues s) q ok (stopped s) false (unlocked s) Hn) as F.
+    destruct (finish_in (queues s) q ok (stopped s) false (unlocked s)) as [qs unl]. simpl in F.
+    rewrite (step_shape cfg _ (fun q0 => if N.eqb (q_name q0) q then finish_one ok (stopped s) false q0 else q0) (queues s));
       [|exact F|].
     + apply map_ext. intros q0. simpl. now rewrite orb_false_r.
-    + intros q0. destruct (N.eqb (q_name q0) q); [|reflexivity]. unfold finish_one.
-      destruct (q_running q0); [|reflexivity]. destruct (q_items q0); [reflexivity|].
-      destruct (stopped s); [reflexivity|]. destruct (ok || t_allow t); reflexivity.
+    + intros q0. destruct (N.eqb (q_name q0) q); [apply finish_one_name|reflexivity].
   - rewrite (step_shape cfg _ (fun q => q) (queues s)); [|simpl; now rewrite map_id|reflexivity].
     apply map_ext. intros q1. simpl. now rewrite orb_true_r.
+  - pose proof (finish_in_map (queues s) q false (stopped s) true (unlocked s) Hn) as F.
+    destruct (finish_in (queues s) q false (stopped s) true (unlocked s)) as [qs unl]. simpl in F.
+    rewrite (step_shape cfg _ (fun q0 => if N.eqb (q_name q0) q then finish_one false (stopped s) true q0 else q0) (queues s));
+      [|exact F|].
+    + apply map_ext. intros q0. simpl. now rewrite orb_false_r.
+    + intros q0. destruct (N.eqb (q_name q0) q); [apply finish_one_name|reflexivity].
+  - rewrite (step_shape cfg _ (fun q0 => if N.eqb (q_name q0) q then elapse_one q0 else q0) (queues s));
+      [|simpl; now apply elapse_in_map|].
+    + apply map_ext. intros q0. simpl. now rewrite orb_false_r.
+    + intros q0. destruct (N.eqb (q_name q0) q); [apply elapse_one_name|reflexivity].
 Qed.
 
 (* ------------------------------------------------------------------ consequences: C03 *)
 
-Lemma adv_one_quiescent cfg qok q : quiescent_q q -> busy_nonempty q -> adv_one cfg qok q = q.
+Lemma adv_one_quiescent cfg qok q : quiescent_q q -> busy_nonempty q -> delay_running q -> adv_one cfg qok q = q.
 Proof.
-  intros [R|E] B; unfold adv_one.
+  intros [R|E] B D; unfold adv_one.
   - now rewrite R.
   - destruct (is_running q) eqn:R; [reflexivity|].
     rewrite E. unfold advance_q, fuel_for. simpl.
-    rewrite (eta_q q) at 2. rewrite E. unfold is_running in R. destruct (q_running q); [discriminate | reflexivity].
+    assert (Dq : q_delay q = false) by (destruct (q_delay q) eqn:Dq'; [specialize (D Dq'); congruence | reflexivity]).
+    rewrite (eta_q q) at 2. rewrite E, Dq. unfold is_running in R. destruct (q_running q); [discriminate | reflexivity].
 Qed.
 
 Lemma app_many_nil q ts :
@@ -467,39 +592,44 @@ Theorem other_queue_untouched cfg s a q :
   Inv s -> In q (queues s) ->
   match a with
   | Boot | Stop => False
-  | Finish qn _ => q_name q <> qn
+  | Finish qn _ | FinishWait qn | Elapse qn => q_name q <> qn
   | Tick c => filter (fun t => N.eqb (t_queue t) (q_name q)) (sched_tasks cfg (sched_on s) c) = []
   | KubeEv m o => filter (fun t => N.eqb (t_queue t) (q_name q)) (kube_tasks cfg (unlocked s) m o) = []
   end ->
   step_q cfg a (sched_on s) (unlocked s) (stopped s) (has_queue (queues s)) q = q.
 Proof.
-  intros [I1 I2 I3] Hin Ha. unfold step_q.
+  intros [I1 I2 I3 I4] Hin Ha. unfold step_q.
   assert (B : busy_nonempty q) by (rewrite Forall_forall in I2; auto).
+  assert (D : delay_running q) by (rewrite Forall_forall in I4; auto).
   destruct a; try contradiction.
   - rewrite app_many_nil by exact Ha. simpl. rewrite orb_false_r. destruct (stopped s) eqn:St; [reflexivity|].
-    apply adv_one_quiescent; [|exact B]. specialize (I3 eq_refl). rewrite Forall_forall in I3; auto.
+    apply adv_one_quiescent; [|exact B|exact D]. specialize (I3 eq_refl). rewrite Forall_forall in I3; auto.
   - rewrite app_many_nil by exact Ha. simpl. rewrite orb_false_r. destruct (stopped s) eqn:St; [reflexivity|].
-    apply adv_one_quiescent; [|exact B]. specialize (I3 eq_refl). rewrite Forall_forall in I3; auto.
+    apply adv_one_quiescent; [|exact B|exact D]. specialize (I3 eq_refl). rewrite Forall_forall in I3; auto.
   - apply N.eqb_neq in Ha. rewrite Ha. simpl. rewrite orb_false_r. destruct (stopped s) eqn:St; [reflexivity|].
-    apply adv_one_quiescent; [|exact B]. specialize (I3 eq_refl). rewrite Forall_forall in I3; auto.
+    apply adv_one_quiescent; [|exact B|exact D]. specialize (I3 eq_refl). rewrite Forall_forall in I3; auto.
+  - apply N.eqb_neq in Ha. rewrite Ha. simpl. rewrite orb_false_r. destruct (stopped s) eqn:St; [reflexivity|].
+    apply adv_one_quiescent; [|exact B|exact D]. specialize (I3 eq_refl). rewrite Forall_forall in I3; auto.
+  - apply N.eqb_neq in Ha. rewrite Ha. simpl. rewrite orb_false_r. destruct (stopped s) eqn:St; [reflexivity|].
+    apply adv_one_quiescent; [|exact B|exact D]. specialize (I3 eq_refl). rewrite Forall_forall in I3; auto.
 Qed.
 
 (* While a handler runs, its queue only grows at the tail: the running task stays the head
    and nothing else is started in that queue, whatever arrives. *)
 Theorem running_queue_only_grows cfg s a q :
   Inv s -> In q (queues s) -> is_running q = true ->
-  match a with Finish qn _ => q_name q <> qn | _ => True end ->
+  match a with Finish qn _ | FinishWait qn | Elapse qn => q_name q <> qn | _ => True end ->
   exists extra,
     step_q cfg a (sched_on s) (unlocked s) (stopped s) (has_queue (queues s)) q
-    = mkQ (q_name q) (q_items q ++ extra) (q_running q).
+    = mkQ (q_name q) (q_items q ++ extra) (q_running q) (q_delay q).
 Proof.
-  intros [I1 I2 I3] Hin R Ha. unfold step_q.
+  intros [I1 I2 I3 I4] Hin R Ha. unfold step_q.
   assert (G : forall ts, (if stopped s || false then app_many ts q else adv_one cfg (has_queue (queues s)) (app_many ts q))
-                         = mkQ (q_name q) (q_items q ++ filter (fun t => N.eqb (t_queue t) (q_name q)) ts) (q_running q)).
+                         = mkQ (q_name q) (q_items q ++ filter (fun t => N.eqb (t_queue t) (q_name q)) ts) (q_running q) (q_delay q)).
   { intros ts. rewrite orb_false_r. destruct (stopped s); [reflexivity|].
     unfold adv_one. replace (is_running (app_many ts q)) with (is_running q) by reflexivity. now rewrite R. }
   assert (G0 : (if stopped s || false then q else adv_one cfg (has_queue (queues s)) q)
-               = mkQ (q_name q) (q_items q ++ []) (q_running q)).
+               = mkQ (q_name q) (q_items q ++ []) (q_running q) (q_delay q)).
   { rewrite orb_false_r, app_nil_r. rewrite <- eta_q. destruct (stopped s); [reflexivity|]. unfold adv_one. now rewrite R. }
   destruct a; simpl.
   - exists []. exact G0.
@@ -507,6 +637,44 @@ Proof.
   - eexists. apply G.
   - exists []. apply N.eqb_neq in Ha. rewrite Ha. exact G0.
   - exists []. rewrite orb_true_r, app_nil_r. apply eta_q.
+  - exists []. apply N.eqb_neq in Ha. rewrite Ha. exact G0.
+  - exists []. apply N.eqb_neq in Ha. rewrite Ha. exact G0.
+Qed.
+
+(* The same holds while the queue waits in the back-off delay after a failed run: until the
+   delay elapses the failed task stays the head, nothing of the queue is started, the
+   queue only grows at the tail - whatever ticks, events, ends of other executions arrive. *)
+Theorem delayed_queue_only_grows cfg s a q :
+  Inv s -> In q (queues s) -> q_delay q = true ->
+  match a with Elapse qn => q_name q <> qn | _ => True end ->
+  exists extra,
+    step_q cfg a (sched_on s) (unlocked s) (stopped s) (has_queue (queues s)) q
+    = mkQ (q_name q) (q_items q ++ extra) (q_running q) true.
+Proof.
+  intros HI Hin D Ha.
+  assert (R : is_running q = true) by (pose proof (inv_delay s HI) as I4; rewrite Forall_forall in I4; now apply I4).
+  assert (F : forall ok w, finish_one ok (stopped s) w q = q).
+  { intros ok w. unfold finish_one. destruct (q_running q); [|reflexivity]. destruct (q_items q); [reflexivity|]. now rewrite D. }
+  assert (Blocked : (if stopped s || false then q else adv_one cfg (has_queue (queues s)) q)
+                    = mkQ (q_name q) (q_items q ++ []) (q_running q) true).
+  { rewrite orb_false_r, app_nil_r. rewrite <- D, <- eta_q. destruct (stopped s); [reflexivity|]. unfold adv_one. now rewrite R. }
+  assert (Other : forall a', match a' with Finish qn _ | FinishWait qn | Elapse qn => q_name q <> qn | _ => True end ->
+            exists extra, step_q cfg a' (sched_on s) (unlocked s) (stopped s) (has_queue (queues s)) q
+                          = mkQ (q_name q) (q_items q ++ extra) (q_running q) true).
+  { intros a' Ha'. destruct (running_queue_only_grows cfg s a' q HI Hin R Ha') as [extra E].
+    exists extra. now rewrite E, D. }
+  destruct a as [| | |qn ok| |qn|qn].
+  - apply Other. exact I.
+  - apply Other. exact I.
+  - apply Other. exact I.
+  - destruct (N.eqb (q_name q) qn) eqn:E.
+    + exists []. unfold step_q. rewrite E, F. exact Blocked.
+    + apply Other. now apply N.eqb_neq.
+  - apply Other. exact I.
+  - destruct (N.eqb (q_name q) qn) eqn:E.
+    + exists []. unfold step_q. rewrite E, F. exact Blocked.
+    + apply Other. now apply N.eqb_neq.
+  - apply Other. exact Ha.
 Qed.
 
 (* routing: a firing of crontab c yields exactly one task per schedule binding with that
@@ -558,29 +726,34 @@ Proof.
 Qed.
 
 (* After Shutdown no queue starts another task: a queue that is in a handler after the
-   step was in that very handler before it (same head), whatever the action. *)
+   step was in that very handler before it (same head), whatever the action - also the end
+   of a back-off delay. *)
 Theorem no_new_execution_after_stop cfg s a q :
   Inv s -> In q (queues s) -> stopped s = true \/ a = Stop ->
   let q' := step_q cfg a (sched_on s) (unlocked s) (stopped s) (has_queue (queues s)) q in
-  is_running q' = true ->
-  q_running q' = q_running q /\ hd_error (q_items q') = hd_error (q_items q) /\ is_running q = true.
+  in_handler q' = true ->
+  q_running q' = q_running q /\ hd_error (q_items q') = hd_error (q_items q) /\ in_handler q = true.
 Proof.
-  intros [I1 I2 I3] Hin Hs q' R.
+  intros [I1 I2 I3 I4] Hin Hs q' R.
   assert (B : busy_nonempty q) by (rewrite Forall_forall in I2; auto).
   assert (St : stopped s || is_stop a = true) by (destruct Hs as [->| ->]; [reflexivity | apply orb_true_r]).
   unfold q', step_q in *. rewrite St in *.
-  assert (G : forall ts, is_running (app_many ts q) = true ->
+  assert (G : forall ts, in_handler (app_many ts q) = true ->
               q_running (app_many ts q) = q_running q /\
-              hd_error (q_items (app_many ts q)) = hd_error (q_items q) /\ is_running q = true).
-  { intros ts Hr. unfold app_many in *. unfold is_running in *. simpl in *. repeat split; auto.
-    specialize (B Hr). destruct (q_items q); [contradiction | reflexivity]. }
+              hd_error (q_items (app_many ts q)) = hd_error (q_items q) /\ in_handler q = true).
+  { intros ts Hr. unfold app_many, in_handler in *. unfold is_running in *. simpl in *. repeat split; auto.
+    apply andb_true_iff in Hr as [Hr _]. specialize (B Hr). destruct (q_items q); [contradiction | reflexivity]. }
+  assert (Fin : forall ok w, stopped s = true -> in_handler (finish_one ok (stopped s) w q) = true ->
+              q_running (finish_one ok (stopped s) w q) = q_running q /\
+              hd_error (q_items (finish_one ok (stopped s) w q)) = hd_error (q_items q) /\ in_handler q = true).
+  { intros ok w Ss. rewrite Ss. unfold finish_one. destruct (q_running q) eqn:Rq; auto. destruct (q_items q) eqn:Iq.
+    - rewrite Iq. auto.
+    - destruct (q_delay q) eqn:Dq; [rewrite Iq; auto|]. unfold in_handler, is_running. simpl. discriminate. }
   destruct a; auto.
-  destruct (N.eqb (q_name q) q0); auto.
-  unfold finish_one in *. destruct (q_running q) eqn:Rq; auto. destruct (q_items q) eqn:Iq.
-  - rewrite Iq. auto.
-  - destruct (stopped s) eqn:Ss.
-    + unfold is_running in R. simpl in R. discriminate.
-    + destruct Hs as [Hs|Hs]; discriminate.
+  - destruct (N.eqb (q_name q) q0); auto. destruct Hs as [Hs|Hs]; [now apply Fin | discriminate].
+  - destruct (N.eqb (q_name q) q0); auto. destruct Hs as [Hs|Hs]; [now apply Fin | discriminate].
+  - destruct (N.eqb (q_name q) q0); auto. unfold elapse_one in *. destruct (q_delay q) eqn:Dq; auto.
+    unfold in_handler, is_running in R. simpl in R. discriminate.
 Qed.
 
 (* the worker terminates as soon as its current handler returns: after Finish the queue is
@@ -589,16 +762,29 @@ Qed.
 Theorem handler_return_stops_worker cfg s q ok :
   Inv s -> In q (queues s) -> stopped s = true ->
   let q' := step_q cfg (Finish (q_name q) ok) (sched_on s) (unlocked s) (stopped s) (has_queue (queues s)) q in
-  is_running q' = false /\ q_items q' = q_items q.
+  in_handler q' = false /\ q_items q' = q_items q.
 Proof.
-  intros [I1 I2 I3] Hin St q'.
+  intros [I1 I2 I3 I4] Hin St q'.
   assert (B : busy_nonempty q) by (rewrite Forall_forall in I2; auto).
   unfold q', step_q. rewrite St, N.eqb_refl. simpl. unfold finish_one.
   destruct (q_running q) eqn:R.
   - destruct (q_items q) eqn:I.
     + exfalso. apply B; [unfold is_running; now rewrite R | exact I].
-    + unfold is_running. simpl. auto.
-  - unfold is_running. rewrite R. auto.
+    + destruct (q_delay q) eqn:D.
+      * unfold in_handler. rewrite D, I, andb_false_r. auto.
+      * unfold in_handler, is_running. simpl. auto.
+  - unfold in_handler, is_running. rewrite R. auto.
+Qed.
+
+(* a queue waiting in a back-off delay when Shutdown is requested runs nothing any more:
+   the end of the delay starts no execution *)
+Theorem stop_during_delay cfg s q :
+  Inv s -> In q (queues s) -> stopped s = true -> q_delay q = true ->
+  let q' := step_q cfg (Elapse (q_name q)) (sched_on s) (unlocked s) (stopped s) (has_queue (queues s)) q in
+  is_running q' = false /\ q_items q' = q_items q.
+Proof.
+  intros HI Hin St D q'. unfold q', step_q. rewrite St, N.eqb_refl. simpl. unfold elapse_one. rewrite D.
+  unfold is_running. simpl. auto.
 Qed.
 
 (* ticks and events after Shutdown only append; they change no running flag *)
